@@ -136,7 +136,7 @@ package plugin
 //@   at call strings.Join#1 assert c.config.Plugins != nil && !old(version in c.config.VersionedPlugins) ==> c.config.VersionedPlugins[version] == c.config.Plugins   [C02.offer]
 //@   after call generateCert#1 bind cpem: Slice := ret0
 //@   at call fmt.Sprintf("PLUGIN_CLIENT_CERT=%s")#1 assert len(arg1) == 1 && arg1[0] == iface(cpem)   [C12.env]
-//@   at call (runner.Runner).Start#1 assert c.config.AutoMTLS ==> c.config.TLSConfig != nil && c.config.TLSConfig.ClientAuth == 4 && c.config.TLSConfig.MinVersion >= 771 && len(c.config.TLSConfig.Certificates) == 1 && !c.config.TLSConfig.InsecureSkipVerify && c.config.TLSConfig.ServerName == "localhost"   [C12.client]
+//@   at call (runner.Runner).Start#1 assert c.config.AutoMTLS ==> c.config.TLSConfig != nil && c.config.TLSConfig.ClientAuth == 4 && c.config.TLSConfig.MinVersion >= 771 && len(c.config.TLSConfig.Certificates) == 1 && !c.config.TLSConfig.InsecureSkipVerify && c.config.TLSConfig.ServerName == "localhost" && c.config.TLSConfig.ClientSessionCache == nil   [C12.client]
 //@   at call (*Client).loadServerCert#1 assert arg0 == parts[5]   [C12.pin]
 //@   loop#2 invariant forall j :: 0 <= j && j <= rangeindex ==> c.config.AllowedProtocols[j] != c.protocol
 //@   after call (*sync.Mutex).Lock#1 bind a0: Iface := c.address
@@ -1314,7 +1314,7 @@ package plugin
 //@   after call (ServeConfig).TLSProvider#1 bind ptls: Ref := ret0
 //@   at call (ServerProtocol).Init#1 assert opts.TLSProvider != nil && ptls == nil && getenv("PLUGIN_CLIENT_CERT") != "" ==> tlsConfig != nil && tlsConfig == tc && tc.ClientAuth == 4 && tc.ClientCAs == pool   [C12.server]
 //@   at call (ServerProtocol).Init#1 assert opts.TLSProvider != nil && ptls != nil ==> tlsConfig == ptls   [C12.server]
-//@   at call (ServerProtocol).Init#1 assert opts.TLSProvider == nil && getenv("PLUGIN_CLIENT_CERT") != "" ==> tlsConfig != nil && tlsConfig == tc && tc.ClientAuth == 4 && tc.ClientCAs == pool && pool_pem(pool) == getenv("PLUGIN_CLIENT_CERT") && tc.MinVersion >= 771 && tc.RootCAs == pool && !tc.InsecureSkipVerify && tc.ServerName == "localhost"   [C12.server]
+//@   at call (ServerProtocol).Init#1 assert opts.TLSProvider == nil && getenv("PLUGIN_CLIENT_CERT") != "" ==> tlsConfig != nil && tlsConfig == tc && tc.ClientAuth == 4 && tc.ClientCAs == pool && pool_pem(pool) == getenv("PLUGIN_CLIENT_CERT") && tc.MinVersion >= 771 && tc.RootCAs == pool && !tc.InsecureSkipVerify && tc.ServerName == "localhost" && tc.ClientSessionCache == nil   [C12.server]
 //@   at call (ServerProtocol).Init#1 assert opts.TLSProvider == nil && getenv("PLUGIN_CLIENT_CERT") == "" ==> tlsConfig == nil   [C12.server]
 //@   at call (ServerProtocol).Serve#1 assert arg0 == listener && recv == server   [C12.wrap] [C14.tls]
 //@   at call (ServerProtocol).Init#1 assert (pt == "netrpc" ==> typeis(server, "*RPCServer")) && (pt == "grpc" ==> typeis(server, "*GRPCServer")) && recv == server   [C14.proto] [C02.serve]
